@@ -6,7 +6,9 @@ Setting.  `State`/`step`/`getData` (AGH/Model/Stats.lean) transcribe
 internal/stats; `Ghost`/`ghostStep`/`specOK` (AGH/Spec/Stats.lean) are the
 property's own record of what was counted when.  A history is any list of
 `Op`s (updates of any result code / validity in bursts, hour advances of any
-size, clean restarts with any accepted limit, legacy and new limit changes,
+size — with the rollover (`tick`) or with the clock moving on unnoticed
+(`advance`: updates, reads, configuration changes, clears and a shutdown can all
+happen before the flush sees the new hour) —, clean restarts with any accepted limit, legacy and new limit changes,
 clears, reads) applied to a fresh start `new [] clock limit enabled`.  The
 ghost's `dom` flag is the property's domain: Unix hours `8761 ≤ h < 2^32`,
 clock never going backwards.
@@ -129,6 +131,20 @@ theorem C09_restart_same_hour (s s' : State) (ms : Nat) (en : Bool)
       have : ¬ s.curr.id = h := by omega
       simp [this]
 
+/-- The parts of a restart.  `Close` stores the in-memory unit under THE UNIT'S
+hour, whatever hour the clock shows at shutdown (the once-a-second flush may
+not have rotated it yet), and touches no other bucket; a restart is `Close`,
+time passing, `New` at the hour the clock shows then. -/
+theorem C09_close_keeps_own_hour (s : State) (h : Nat) :
+    (closeOp (advance s h)).db.get s.curr.id = some s.curr.serialize ∧
+    (∀ k, k ≠ s.curr.id → (closeOp (advance s h)).db.get k = s.db.get k) ∧
+    ∀ id l en, openOp (advance (closeOp (advance s h)) id) l en = restart s id l en := by
+  refine ⟨?_, ?_, fun _ _ _ => rfl⟩
+  · simp [closeOp, advance, close, DB.get_put]
+  · intro k hk
+    have : ¬ s.curr.id = k := fun x => hk x.symm
+    simp [closeOp, advance, close, DB.get_put, this]
+
 /-- A clean restart at a later hour keeps the previous current unit
 addressable under its own hour as long as that hour is not older than the new
 window (and one hour of slack). -/
@@ -188,7 +204,7 @@ theorem C09_update_once (s : State) (e : Entry) (n : Nat) (hl : s.limit ≠ 0) :
       ∀ c, (updateN s e n).1.curr.nResult c = s.curr.nResult c + (if c = e.result.toNat then n else 0)) := by
   refine ⟨updateN_not_counted s e n, ?_⟩
   intro h
-  have hc : counted ⟨[], 0, 0, s.enabled, true⟩ e = true := h
+  have hc : counted ⟨[], 0, 0, 0, s.enabled, true⟩ e = true := h
   obtain ⟨hen, hv, h1, _⟩ := counted_valid hc
   obtain ⟨s', e1, d1, _, _, _, i1, t1, r1⟩ := updateN_acc s e n hen hl hv (by omega)
   rw [e1]
@@ -247,6 +263,21 @@ example : ∀ op ∈ exHistory, keepsLimit (24 * msPerHour / msPerHour) op := by
 example : ∃ s0 s, new [] 500000 (24 * msPerHour) true = some s0 ∧ runOps s0 exHistory = some s ∧
     s.curr.nTotal = 1 ∧ s.db.length = 1 := by
   refine ⟨_, _, rfl, rfl, ?_, ?_⟩ <;> decide
+
+/-- The missed-rollover shutdown: 3 queries in hour 500000, the clock moves 30 h
+on without a flush, more queries are counted (still in the unit of hour 500000),
+shutdown, start.  Inside the domain; after the restart nothing is inside the
+24 h window any more. -/
+def exLag : List Op :=
+  [.upd ⟨2, false, false⟩ 3, .advance 500030, .upd ⟨1, false, false⟩ 2, .read, .restart 500030 (24 * msPerHour) true]
+
+example : (ghostRun (Ghost.init 500000 (24 * msPerHour) true) exLag).dom = true ∧
+    upper (ghostRun (Ghost.init 500000 (24 * msPerHour) true) (exLag.take 4)) .total = 5 ∧
+    upper (ghostRun (Ghost.init 500000 (24 * msPerHour) true) exLag) .total = 0 := by decide
+
+example : ∃ s0 s, new [] 500000 (24 * msPerHour) true = some s0 ∧ runOps s0 exLag = some s ∧
+    s.curr.id = 500030 ∧ s.curr.nTotal = 0 ∧ (s.db.get 500000).map (·.nTotal) = none := by
+  refine ⟨_, _, rfl, rfl, ?_, ?_, ?_⟩ <;> decide
 
 /-- `upper` is a genuine count: after the first four ops of `exHistory` the
 window holds 9 queries, 3 of them blocked; after the gap only the last one. -/
